@@ -23,6 +23,38 @@ def prepare_decl(libs=decl.CSV_LIBS):
     return d, dl
 
 
+def docs_check(chk, prop, libname, decl_dir, netcdf):
+    """the declarations the documentation gives against the live ones (MPDeclDocs); returns the number of findings"""
+    dd = decl.doc_export(netcdf)
+    if not dd:
+        chk.note("documentation (docs/user/lib-eems-*.rst) not found in the tree under test: declarations not compared with it")
+        return 0
+    with open(os.path.join(decl_dir, "MC_DocDecl.tla"), "w") as f:
+        f.write(decl.doc_module_text(dd))
+    d = core.scratch_dir("mpv-doc-")
+    cfg = os.path.join(d, "d.cfg")
+    with open(cfg, "w") as f:
+        f.write("CONSTANTS AllKinds = FALSE Pairs = FALSE\nINIT Init\nNEXT Next\nCHECK_DEADLOCK FALSE\n")
+    r = core.run_tlc("MPDeclDocs", cfg, workers=1, timeout=300, javaopts=["-DTLA-Library=" + decl_dir])
+    if r.error or r.rc != 0:
+        core.tlc_fail(r, "MPDeclDocs")
+    chk.add_tlc("MPDeclDocs (%s libraries, %d documented commands)" % (libname, len(dd)), r, "DocDecl generated from docs/user/*.rst, Decl from live classes")
+    n = 0
+    for tag, what in (("REQUIRED", "RequiredDiffers"), ("KIND", "KindDiffers")):
+        got = core.parse_printt(r.out, tag)
+        for cname, pname in (got[0][1] if got else []):
+            n += 1
+            docp = [p for c in dd if c[0] == cname for p in c[1] if p[0] == pname][0]
+            chk.finding("%s:%s:Docs.%s:%s.%s" % (prop, libname, what, cname, pname),
+                        "the documentation declares %s(%s) as %s %s, the command class does not: a model written from the documentation is judged differently" % (
+                            cname, pname, "required" if docp[2] else "optional", docp[1]), {"command": cname, "parameter": pname, "documented": docp})
+    got = core.parse_printt(r.out, "UNDECLARED")
+    for cname in (got[0][1] if got else []):
+        n += 1
+        chk.finding("%s:%s:Docs.CommandMissing:%s" % (prop, libname, cname), "the documented command %s is not defined by the libraries" % cname, {"command": cname})
+    return n
+
+
 def run_model(decl_dir, prepass=True, total=True, dump=True, workers=None, allkinds=False):
     d = core.scratch_dir("mpv-val-")
     cfg = os.path.join(d, "v.cfg")
@@ -289,7 +321,15 @@ def run_check(chk, prop, tier, clause_prefixes, libsets, allkinds=False, keep=No
     for libname, libs in libsets:
         netcdf = libname == "netcdf"
         decl_dir, dl = prepare_decl(libs)
+        ndoc = docs_check(chk, prop, libname, decl_dir, netcdf) if prop == "C12" else 0
         r, progs = run_model(decl_dir, allkinds=allkinds)
+        if r.violated == "BuilderSound" and prop != "C12":
+            chk.note("MPValidate's fixture is ill-formed under the live declarations (BuilderSound): that is C12's subject; this part of %s is skipped" % prop)
+            return
+        if r.violated == "BuilderSound" and ndoc:
+            # the fixture itself is no longer well-formed under the live declarations: the documented declarations say why (reported above)
+            chk.note("MPValidate's fixture is ill-formed under the live declarations (BuilderSound); the run stops at the declaration findings")
+            return
         if r.violated:
             sys.stderr.write("MACHINERY FAILURE: MPValidate violates %s under the intended switches\n%s\n" % (r.violated, r.out[-3000:]))
             sys.exit(2)
@@ -391,6 +431,9 @@ RUNTIME_SCENARIOS = [
     ("eems2-pair-list-as-new-field-name", "READ(InFileName = in.csv, InFieldName = a, NewFieldName = [b: c])\n", {}),
     ("eems2-no-result-name", "READ(InFileName = in.csv, InFieldName = a)\nSUM(InFieldNames = [a, a])\n", {}),
     ("eems2-number-as-new-field-name", "READ(InFileName = in.csv, InFieldName = a, NewFieldName = 5)\nCOPYFIELD(InFieldName = 5, NewFieldName = c)\n", {}),
+    ("syntax-number-newline-word", "A = EEMSRead(InFileName = in.csv, InFieldName = a, Metadata = [Year: 2020\n   Source: x])\n", {}),
+    ("syntax-number-comment-word", "A = EEMSRead(InFileName = in.csv, InFieldName = a)\nF = CvtToFuzzy(InFieldName = A, TrueThreshold = 5 # was 4\n    units, FalseThreshold = 1)\n", {}),
+    ("syntax-float-newline-word-in-list", "A = EEMSRead(InFileName = in.csv, InFieldName = a)\nS = WeightedSum(InFieldNames = [A, A], Weights = [0.25\n  A])\n", {}),
     ("ok-model", "A = EEMSRead(InFileName = in.csv, InFieldName = a)\nF = CvtToFuzzy(InFieldName = A)\nW = EEMSWrite(OutFileName = out.csv, OutFieldNames = [A, F])\n", {}),
 ]
 
@@ -522,6 +565,8 @@ FUZZ_BASE = [
     "READ(InFileName = in.csv, InFieldName = a)\nCVTTOFUZZY(InFieldName = a, NewFieldName = f, TrueThreshold = 2, FalseThreshold = 0)\n",
     "X = Sum(InFieldNames = [[A], ['b \\' c'], C:\\x y\\z, 3d, -1, +.5, 1.e3])\r\nY = Copy(\r\n  InFieldName = X\r\n)\r\n",
 ]
+FUZZ_BASE.append("A = EEMSRead(InFileName = in.csv,\n  InFieldName = a,\n  MissingVal = -9999, # none\n  DataType = Float)\n"
+                 "N = NormalizeCurve(InFieldName = A, RawValues = [1,\n 2.5,\n 3], NormalValues = [0, .5 # mid\n , 1],\n Metadata = [Year: 2020,\n Source: x, Rank: 3\n])\n")
 FUZZ_VALUES = ["[a]", "[]", "[a: b]", "9" * 4400, "-" + "1" * 4400, "1e400", "''", "True", "[[a]]", "a b", "0x1F", "." + "3" * 4400, "a" * 5000, "[" * 200 + "]" * 200]
 FUZZ_CHARS = list("()[]=,:#\"'\\ \n\t\r.-+eE09aZ_") + ["\u00e9", "\u4e2d", "\U0001f600", "\x00", "\x0c", "True", "False", "[[", "]]", ",,", "==", "\\\"", "1e", "-"]
 
